@@ -60,6 +60,10 @@ THEOREMS = [
     "IrVerif.Clone.C13_frame_orig_edited_function_ext",
     "IrVerif.Clone.C13_closed_sharding",
     "IrVerif.Clone.C13_closed_sharding_model",
+    "IrVerif.Clone.C13_clone_succeeds",
+    "IrVerif.Clone.C13_clone_error_exact",
+    "IrVerif.Clone.C13_clone_raises_iff",
+    "IrVerif.Clone.C13_value_map_bijection",
 ]
 ASSUMPTIONS = [
     "hand-written model IrVerif.Clone of _cloner.py / the clone entry points / the constructors they call; tied to the "
@@ -1529,7 +1533,9 @@ def real_case(spec, histories_seed, n_hist, n_edits, out, fixed_plans=None):
     _defined, outer, ordered = source_analysis(src)
     step = {"model": {"op": "modelClone", "mo": src_id}, "function": {"op": "funcClone", "f": src_id}}.get(kind) or {
         "op": "graphClone", "g": src_id, "allow": bool(t.get("allow"))}  # fmt: skip
+    src_values = [heap.ids[id(v)] for v in walk(src)[2] if id(v) in heap.ids]
     res = {"spec": spec, "world0": world0, "n0": n0, "roots": root_ids, "step": step, "tag": tag, "hist": [],
+           "src_values": src_values,
            "src_serializes": isinstance(src_ser, bytes),
            "src_ser_exc": None if isinstance(src_ser, bytes) else src_ser[1], "ser_excuse": ser_excuse(src)}
     try:
@@ -1793,6 +1799,9 @@ def compare_cases(ctx: Ctx, results):
             ctx.disagree("abstracted heap has a dangling pointer (wellFormed2 = false)", {"spec": spec}, o["outcomes"][1], None)
             continue
         ctx.count("hyp_wellFormed2=True")
+        nfa = sum(1 for f in spec.get("functions", []) for a in f.get("attrs", []) if a["kind"] in ("graph", "graphs"))
+        if nfa and t["kind"] in ("function", "model", "functionalize"):
+            ctx.count(f"function_graph_attr_decls:target={t['kind']}")
         # hypothesis `devLocalW w` of C13_closed_sharding (evaluated on the heap after the clone step: the clone must
         # satisfy it again whenever the source did)
         ctx.count(f"hyp_devLocalW={o['outcomes'][3]['r'] == 'ok'}")
@@ -1873,6 +1882,14 @@ def compare_cases(ctx: Ctx, results):
         elif v["v"] in ("ok", "raised") and v["v"] != r["outcome"]:
             ctx.disagree(f"walker verdict {v['v']} ({v.get('why')}) but the real clone {r['outcome']} ({r.get('exc')})",
                          {"spec": r["spec"]}, v, r["outcome"])
+        elif v["v"] == "ok":
+            # C13_value_map_bijection: the keys of the value map are the walker's bound list; on the real objects these
+            # are exactly the values the cloned region defines (inputs, initializers, node outputs at any depth), once each
+            if sorted(v["bound"]) != sorted(set(r["src_values"])) or len(set(v["bound"])) != len(v["bound"]):
+                ctx.disagree("walker's bound list is not the set of values the source region defines",
+                             {"spec": r["spec"]}, sorted(v["bound"]), sorted(r["src_values"]))
+            else:
+                ctx.count("bound_list_is_region_values=True")
     outs2 = lean_batch_parallel(reqs2)
     for (r, h, mroots, iroots), o in zip(idx2, outs2):
         spec = r["spec"]
